@@ -1,7 +1,7 @@
 CONSTANTS
   PalUse = {1, 9, 31}
   MaxNodes = 3
-  MaxDocs = 2
+  MaxDocs = 1
   ScalarStyles = {"plain", "single", "double", "lit", "fold"}
   CollStyles = {"block", "flow"}
   MaxDecor = 1
